@@ -1,6 +1,6 @@
 import Driver.Codec
-import CardVerif.Model.Pot
-import CardVerif.Spec.SidePot
+import CardModel.Model.Pot
+import CardModel.Spec.SidePot
 import Driver.Poker
 import Driver.Evals
 import Driver.Gin
